@@ -103,7 +103,14 @@ type BigV struct{ V Value }
 type IntV struct {
 	V   Value
 	Nil bool
+	// box is the identity of the underlying *big.Int: copies of an Int share it (as they share the pointer in Go). It only
+	// matters once BigIntMut / NewIntFromBigIntMut hand the pointer out: from then on the value is read through box.mut.
+	box *intBox
 }
+
+type intBox struct{ mut *Ptr }
+
+func nIntV(v Value) IntV { return IntV{V: v, box: &intBox{}} }
 
 // UintV models cosmossdk.io/math.Uint.
 type UintV struct {
@@ -267,6 +274,9 @@ func keyString(v Value) string {
 	case *Sym:
 		panic(unsupported("symbolic value used as map key / in concrete comparison: " + x.T))
 	case IntV:
+		if x.box != nil && x.box.mut != nil {
+			panic(unsupported("math.Int aliased through BigIntMut used as key"))
+		}
 		if b, ok := x.V.(*big.Int); ok {
 			return "Int" + b.String()
 		}
